@@ -33,7 +33,7 @@ BOUNDARY = {
     'C15': 'modelled: `execute_query` pivot branch (key collection, sorting, block placement), `_compile_pivot_by`.',
     'C16': 'modelled: `render_rows`, `render_text`, `render_csv` layout, the bool / int / str / date / decimal / set renderers.  Amount / position / cost / inventory cell formatters are checked by oracles on the rendered output (alignment, read-back at display precision).',
     'C17': 'modelled: `numberify_results` and its converters (identity, amount, position, inventory), the currency census and its ordering.',
-    'C18': 'modelled: the date, account, string, numeric and cast functions of `query_env.py` with CPython `datetime`, `relativedelta`, `str` and `decimal` semantics.',
+    'C18': 'modelled: the date, account, string, numeric and cast functions of `query_env.py` with CPython `datetime`, `relativedelta`, `str`, `decimal` and `textwrap.shorten` (maxwidth; texts without hyphens) semantics.',
     'C19': 'modelled: `shell.Settings` (typed fields, `setstr` / `getstr`), `DispatchingShell.default` / `onecmd` dispatch, `BQLShell.parse` default close.  The rendering of results is C16; the CLI options are checked by running the entry point.',
     'C20': 'modelled: each execution as a state machine over private state; the old process-wide cache as shared state.  Interleaving granularity of the harness: yield-function boundaries (`vp_yield`) in row evaluation, aggregate output and HAVING, not bytecodes.',
 }
